@@ -31,6 +31,9 @@ def rust_path(q):
     return None
 
 
+# user-implementable traits of the crate whose `dyn` form is probed
+DYN_PATHS = {"Clock": "futures_intrusive::timer::Clock"}
+
 # crate-declared traits whose impls are probed as well (rust path of the trait)
 TRAIT_PATHS = {"Timer": "futures_intrusive::timer::Timer", "LocalTimer": "futures_intrusive::timer::LocalTimer"}
 
@@ -159,6 +162,11 @@ fn main() {
             code = "".join("%d%d%d" % b for b in a)
             lines.append('    println!("%s impl:%s %s {}", (&P::<%s>(PhantomData)).is_t%d());' % (t["name"], tname, code or "-", ty, tidx[tname]))
             n += 1
+    # user-implementable traits the crate type-erases and shares between threads
+    for tname, path in sorted(DYN_PATHS.items()):
+        for trait in ("Send", "Sync"):
+            lines.append('    println!("trait:%s %s - {}", (&P::<dyn %s>(PhantomData)).is_%s());' % (tname, trait, path, trait.lower()))
+            n += 1
     lines.append("}\n")
     with open(os.path.join(PROBE, "src", "main.rs"), "w") as f:
         f.write("\n".join(lines))
@@ -213,6 +221,11 @@ def gen_coq_table(types):
         for a in assignments_for(len(t["params"]), "Send"):
             code = "".join("%d%d%d" % b for b in a) or "-"
             table[(t["name"], "impl:" + tname, code)] = ("%s impl:%s %s" % (t["name"], tname, code)) in yes
+    dj = json.load(open(os.path.join(COQ, "Gen", "TypesGen.json"))).get("dyn_traits", {})
+    for tname in DYN_PATHS:
+        d = dj.get(tname, {})
+        table[("trait:" + tname, "Send", "-")] = bool(d.get("send"))
+        table[("trait:" + tname, "Sync", "-")] = bool(d.get("sync"))
     for f in ("C16Table.vo", "C16Table.glob", ".C16Table.aux", "C16Table.vok", "C16Table.vos"):
         try:
             os.remove(os.path.join(COQ, "Gen", f))
@@ -232,13 +245,15 @@ def diagnostics():
         return None
     out = r.stdout
     res = []
-    for tag in ("UNSOUND", "INCOMPLETE", "UNPINNED"):
+    for tag in ("UNSOUND", "INCOMPLETE", "UNPINNED", "ERASED"):
         m = re.search(r'\("%s",(.*?)\)\s*:\s' % tag, out, re.S)
         body = m.group(1) if m else ""
         lst = []
         for item in re.findall(r'"([^"]+)"', body):
             parts = " ".join(item.split()).split(" ")
-            if len(parts) == 3:
+            if tag == "ERASED":
+                lst.append(tuple(parts))
+            elif len(parts) == 3:
                 lst.append(tuple(parts))
             else:
                 lst.append((parts[0], "Unpin", "-"))
@@ -289,7 +304,37 @@ def run(prop="C16", tier="quick", seed=1):
     if diag is None:
         problems.append(dict(kind="coq-diag", detail="Gen/C16Diag.v does not compile"))
     else:
-        unsound, incomplete, unpinned = diag
+        unsound, incomplete, unpinned, erased = diag
+        for ent in erased:
+            if len(ent) != 4:
+                continue
+            owner, impl, kclass, code = ent
+            short = owner.split("::")[-1]
+            is_send = "send" if "Send" in short else "receive"
+            bits = [tuple(int(c) for c in code[i:i + 3]) for i in range(0, len(code), 3)]
+            ti = [x for x in types if x["name"] == impl]
+            wit = wargs = None
+            kinds = ti[0]["kinds"] if ti else (["mutex", "plain", "ringbuf"] if len(bits) == 3 else None)
+            if kinds and len(bits) == len(kinds):
+                tw = None
+                for kind, b in zip(kinds, bits):
+                    if kind == "plain":
+                        tw = witness("plain", b, None)
+                wargs = ", ".join(witness(kind, b, tw) for kind, b in zip(kinds, bits))
+                wit = (ti[0]["path"] if ti else impl) + "<" + wargs + ">"
+            # rustc's verdicts on the two sides of the link (already in the probe table)
+            owner_send = rt.get((owner, "Send", code[:6]))
+            impl_sync = rt.get((impl, "Sync", code))
+            problems.append(dict(kind="monitor", what="erased-link", type=owner, trait="Send", assignment=code,
+                                 klass="erased-buffer:%s->%s" % (owner, impl), in_known_class=(kclass == "K"),
+                                 rustc_accepts=(owner_send is not False),
+                                 rustc_owner_is_send=owner_send, rustc_implementor_is_sync=impl_sync,
+                                 failing_input=((("fn assert_send<X: Send>(_: X) {} let (s, r) = futures_intrusive::channel::shared::generic_channel::<%s>(1); assert_send(%s); "
+                                                  % (wargs, "s.send(Mk(PhantomData))" if is_send == "send" else "r.receive()"))
+                                                 if "shared" in owner else
+                                                 ("fn assert_send<X: Send>(_: X) {} let ch: &'static %s = todo!(); assert_send(ch.%s); "
+                                                  % (wit, "send(Mk(PhantomData))" if is_send == "send" else "receive()")))
+                                                + "/* accepted: the future is Send although the channel behind its `dyn` reference is not Sync */") if wit else None))
         seen = set()
         for what, lst in (("unsound", unsound), ("incomplete", incomplete), ("future-unpin", unpinned)):
             for name, trait, code in lst:
@@ -314,6 +359,13 @@ def run(prop="C16", tier="quick", seed=1):
                                                "assert_send(futures_intrusive::timer::Timer::delay(svc, std::time::Duration::from_secs(1))); "
                                                "/* accepted: a Send TimerFuture that locks a !Sync mutex from another thread */" % ty))
             break
+    # erased owners: `dyn Clock` must be Sync; otherwise a !Sync clock can be installed in a
+    # Sync timer service.  The program rustc then accepts is the failing input.
+    if rt.get(("trait:Clock", "Sync", "-")) is False:
+        problems.append(dict(kind="monitor", what="erased-owner-unguarded", type="trait:Clock", trait="Sync", assignment="-",
+                             rustc_accepts=True,
+                             failing_input="struct CellClock(std::cell::Cell<u64>); impl futures_intrusive::timer::Clock for CellClock { fn now(&self) -> u64 { self.0.get() } } "
+                                           "/* accepted: a !Sync clock read by every thread that polls a TimerFuture of a Sync GenericTimerService */"))
     cov["c16_wall_s"] = round(time.time() - t0, 1)
     return problems, cov
 
